@@ -407,7 +407,7 @@ func (r *FnRun) appendOp(st *State, s SliceVal, tv Val, where string) Val {
 		Base: r.define("abase", Ite(fits, s.Base, nb)), Off: r.define("aoff", Ite(fits, s.Off, r.idxLit(0))),
 		Len: newLen, Cap: r.define("acap", Ite(fits, s.Cap, ncap)), Elem: s.Elem,
 	}
-	if r.bv || !r.contents {
+	if r.bv || !r.contents || !r.contentsFor(s.Elem) {
 		r.havocArgs(st, []Val{res})
 		return res
 	}
@@ -489,10 +489,40 @@ func (r *FnRun) copyOp(st *State, dst SliceVal, srcv Val, where string) Val {
 
 func (r *FnRun) mapKeys(mt types.Type) (ks Sort, vt types.Type) {
 	m := under(mt).(*types.Map)
-	if !isScalarType(m.Key()) {
+	kt := singleLeaf(m.Key())
+	if kt == nil {
 		unsup("map with composite key %s", m.Key())
 	}
-	return r.sortOf(m.Key()), m.Elem()
+	return r.sortOf(kt), m.Elem()
+}
+
+// singleLeaf returns the scalar type a map key boils down to: the key type
+// itself, or the only field of a (nested) one-field struct such as
+// digest.InstanceName; nil for keys with several components.
+func singleLeaf(t types.Type) types.Type {
+	for depth := 0; depth < 4; depth++ {
+		if isScalarType(t) {
+			return t
+		}
+		st, ok := under(t).(*types.Struct)
+		if !ok || st.NumFields() != 1 {
+			return nil
+		}
+		t = st.Field(0).Type()
+	}
+	return nil
+}
+
+// keyTerm is the term a map is indexed with for key value v.
+func (r *FnRun) keyTerm(v Val) Term {
+	for depth := 0; depth < 4; depth++ {
+		sv, ok := v.(*StructVal)
+		if !ok || len(sv.F) != 1 {
+			break
+		}
+		v = sv.F[0]
+	}
+	return r.scalarOf(v)
 }
 
 func (r *FnRun) mapDom(st *State, mt types.Type) (string, Term) {
@@ -564,7 +594,7 @@ func (r *FnRun) lookup(fr *Frame, st *State, x *ssa.Lookup) Val {
 	}
 	mt := x.X.Type()
 	m := termOf(r.val(fr, st, x.X))
-	k := r.scalarOf(r.val(fr, st, x.Index))
+	k := r.keyTerm(r.val(fr, st, x.Index))
 	_, vt := r.mapKeys(mt)
 	_, dom := r.mapDom(st, mt)
 	present := Select(Select(dom, m), k)
@@ -593,7 +623,7 @@ func (r *FnRun) mapUpdate(fr *Frame, st *State, x *ssa.MapUpdate) {
 	mt := x.Map.Type()
 	m := termOf(r.val(fr, st, x.Map))
 	r.oblige("NIL", r.e.describe(fr.fn, x), Not(Eq(m, IntLit(0))), st)
-	k := r.scalarOf(r.val(fr, st, x.Key))
+	k := r.keyTerm(r.val(fr, st, x.Key))
 	_, vt := r.mapKeys(mt)
 	dk, dom := r.mapDom(st, mt)
 	nd := r.fresh("md", dom.Sort)
@@ -608,7 +638,7 @@ func (r *FnRun) mapUpdate(fr *Frame, st *State, x *ssa.MapUpdate) {
 }
 
 func (r *FnRun) mapDelete(st *State, m Term, kv Val, mt types.Type) {
-	k := r.scalarOf(kv)
+	k := r.keyTerm(kv)
 	dk, dom := r.mapDom(st, mt)
 	nd := r.fresh("md", dom.Sort)
 	r.assume(Eq(nd, Store(dom, m, Store(Select(dom, m), k, TFalse))))
@@ -630,7 +660,7 @@ func (r *FnRun) next(fr *Frame, st *State, x *ssa.Next) Val {
 	m := termOf(r.val(fr, st, rng.X))
 	mp := under(mt).(*types.Map)
 	kv := r.freshVal(st, mp.Key(), "mk")
-	k := r.scalarOf(kv)
+	k := r.keyTerm(kv)
 	_, dom := r.mapDom(st, mt)
 	r.assume(Imp(okT, Select(Select(dom, m), k)))
 	v := r.loadTyped(st, mp.Elem(), "", func(path string, s Sort) Term {
